@@ -185,38 +185,47 @@ def subst_state(q, st, M):
     return psubst(q, f, M)
 
 
+def entails_all(st, new, M):
+    """failing facts of `new` (a state at a fresh anchor placed at the current point) in `st`"""
+    bad = []
+    for k in st.cells() | set(new.Cb):
+        if k in new.D:
+            continue
+        if not st.agree(k):
+            bad.append(("differs", k))
+            continue
+        if k in new.Cb:
+            try:
+                ok = st.cell(k, "b") == subst_state(new.Cb[k], st, M)
+            except Reject:
+                ok = False
+            if not ok:
+                bad.append(("cell", k))
+    for t, q in new.T.items():
+        try:
+            ok = t in st.T and st.T[t] == subst_state(q, st, M)
+        except Reject:
+            ok = False
+        if not ok:
+            bad.append(("temp", t))
+    for q in new.NZ:
+        try:
+            ok = nonzero(st, subst_state(dict(q), st, M))
+        except Reject:
+            ok = False
+        if not ok:
+            bad.append(("nz", q))
+    return bad
+
+
 def entails(st, new, M):
-    """every fact of `new` (a state at a fresh anchor placed at the current point: Ci = Cb) holds in `st`"""
-    try:
-        for k in st.cells() | set(new.Cb):
-            if k in new.D:
-                continue
-            if not st.agree(k):
-                return ("differs", k)
-            if k in new.Cb:
-                try:
-                    ok = st.cell(k, "b") == subst_state(new.Cb[k], st, M)
-                except Reject:
-                    ok = False
-                if not ok:
-                    return ("cell", k)
-        for t, q in new.T.items():
-            try:
-                ok = t in st.T and st.T[t] == subst_state(q, st, M)
-            except Reject:
-                ok = False
-            if not ok:
-                return ("temp", t)
-        for q in new.NZ:
-            try:
-                ok = nonzero(st, subst_state(dict(q), st, M))
-            except Reject:
-                ok = False
-            if not ok:
-                return ("nz", q)
-    except Reject as e:
-        return ("fatal", str(e))
-    return None
+    """a failing fact to weaken next: facts that were only hoped for (constants, temporaries,
+    non-zero values) go before declaring that the two tapes differ on a cell"""
+    bad = entails_all(st, new, M)
+    for f in bad:
+        if f[0] != "differs":
+            return f
+    return bad[0] if bad else None
 
 
 def weaken(new, why):
@@ -406,13 +415,6 @@ class TV:
                 if a is not None:
                     rev.setdefault(a, ("c", k))
                 by_val.setdefault(key(p), k)
-                if not p or list(p.keys()) == [()]:
-                    new.Cb[k] = p; new.Ci[k] = p
-            if optimistic:
-                # facts about cells the body writes, in the hope that it restores them
-                for k, p in st.Cb.items():
-                    if k in wc and k not in new.D and (not p or list(p.keys()) == [()]):
-                        new.Cb[k] = p; new.Ci[k] = p
 
         def keep_atom(a):
             if a in rev:
@@ -422,12 +424,25 @@ class TV:
             if a[0] == "t" and st.T.get(a[1]) == patom(a) and a[1] not in wt:
                 return a
             return None
+
+        def rename(p):
+            ren = {a: keep_atom(a) for a in atoms(p)}
+            if all(v is not None for v in ren.values()):
+                return psubst(p, lambda a: patom(ren[a]), M)
+            return None
+        if not allc:
+            for k, p in st.Cb.items():
+                if k in new.D or (k in wc and not optimistic):
+                    continue
+                q = rename(p)
+                if q is not None and q != patom(("c", k)):
+                    new.Cb[k] = q; new.Ci[k] = q
         for t, p in st.T.items():
             if t in wt:
                 continue
-            ren = {a: keep_atom(a) for a in atoms(p)}
-            if all(v is not None for v in ren.values()):
-                new.T[t] = psubst(p, lambda a: patom(ren[a]), M)
+            q = rename(p)
+            if q is not None:
+                new.T[t] = q
             elif key(p) in by_val:
                 new.T[t] = patom(("c", by_val[key(p)]))
             else:
@@ -503,7 +518,7 @@ class TV:
                 exit_pc = pc + b[2]
                 if is_loop and (head_pc != start or back_pc + 1 != exit_pc):
                     raise Reject("guarded loop at %d does not match its back edge" % pc)
-            if exit_pc > stop or exit_pc <= start:
+            if exit_pc > stop or exit_pc < start:
                 raise Reject("exit out of range")
             body_hi = exit_pc - (1 if is_loop else 0)
             wc, wt, allc = write_sets(self.code, start, body_hi)
@@ -550,6 +565,8 @@ class TV:
                 self.stats["if"] += 1
                 ent = st.copy()
                 ent.NZ.add(key(st.cell(cond, "b")))
+                ncert = len(self.cert)
+                self.cert.append(None)
                 pc2, stb = self.block(body, start, exit_pc, ent)
                 if shift != 0:
                     pc2 = self.expect_mov(pc2, exit_pc, shift)
@@ -567,7 +584,7 @@ class TV:
                         break
                     if not weaken(join, why):
                         raise Reject("if join facts at %d: %s" % (exit_pc, why))
-                self.cert.append(("if", join.copy()))
+                self.cert[ncert] = ("if", join.copy())
                 st = join
                 pc = exit_pc
 
@@ -588,11 +605,42 @@ class TV:
             raise Reject("bytecode continues after the IR program (pc %d of %d)" % (pc, len(self.code)))
 
 
+ATOM = {"c": 0, "xi": 1, "xb": 2, "t": 3, "i": 4}
+
+
+def poly_text(p):
+    out = [str(len(p))]
+    for m, c in sorted(p.items()):
+        out.append("%d %d" % (c, len(m)))
+        out += [str(5 * a[1] + ATOM[a[0]]) for a in m]
+    return " ".join(out)
+
+
+def facts_text(st):
+    cs = [(k, p) for k, p in sorted(st.Cb.items()) if k not in st.D]
+    out = [str(len(cs))] + ["%d %s" % (k, poly_text(p)) for k, p in cs]
+    out += [str(len(st.D))] + [str(k) for k in sorted(st.D)]
+    out += [str(len(st.T))] + ["%d %s" % (t, poly_text(p)) for t, p in sorted(st.T.items())]
+    out += [str(len(st.NZ))] + [poly_text(dict(q)) for q in sorted(st.NZ, key=lambda q: sorted(q))]
+    return " ".join(out)
+
+
+def cert_text(cert):
+    out = []
+    for c in cert:
+        if c[0] == "loop":
+            out.append("L %d %d %s" % (c[1], c[2], facts_text(c[3])))
+        else:
+            out.append("F %s" % facts_text(c[1]))
+    return " ".join(out)
+
+
 def validate(w, ir_text, bc_text, fuse):
     stats = {"loop": 0, "if": 0, "scan": 0}
     try:
         tv = TV(w, parse_ir(ir_text.split()), parse_bc(bc_text.split()), stats, fuse)
         tv.run()
+        stats["cert"] = cert_text(tv.cert)
         return "ok", stats
     except Reject as e:
         return "reject: %s" % e, stats
